@@ -92,6 +92,8 @@ class AstTr:
         self.lets = []  # list of ("S", id, code) | ("M", leanname, type, code)
         self.selfvals = {}
         self.init_mode = init_mode
+        self.guard_args = None  # arguments that `if …: raise` guards may test (static, constructor-time values)
+        self.guards = []
 
     def fresh(self):
         self.next_id += 1
@@ -130,6 +132,9 @@ class AstTr:
             raise Untranslatable(f"unbound {n.id} ({self.name})")
         if isinstance(n, ast.Attribute) and ast.unparse(n) in CONSTS:
             return "num", CONSTS[ast.unparse(n)]
+        if isinstance(n, ast.Attribute) and n.attr == "size" and self.vec_mode and isinstance(n.value, ast.Name) \
+                and self.env.get(n.value.id, (None,))[0] == VE:
+            return S, f"(Vec.sizeE {self.env[n.value.id][1]})"
         if isinstance(n, ast.Attribute):
             if isinstance(n.value, ast.Name) and n.value.id == "self":
                 if self.init_mode:
@@ -155,6 +160,15 @@ class AstTr:
                 if isinstance(n.slice, ast.Constant):
                     return S, f"(Expr.var {self.ids.scalar[f'{c}.{n.slice.value}']})"
                 raise Untranslatable("tuple index")
+            if k == "TUPA":
+                # a tuple ARGUMENT of statically known length (`interval`): its components are expression parameters
+                if isinstance(n.slice, ast.Constant) and isinstance(n.slice.value, int) and 0 <= n.slice.value < len(c):
+                    return S, c[n.slice.value]
+                raise Untranslatable("tuple argument index")
+            if k == VE and self.vec_mode:
+                if isinstance(n.slice, ast.Constant) and isinstance(n.slice.value, int) and not isinstance(n.slice.value, bool) and n.slice.value >= 0:
+                    return S, f"(Vec.getAt {c} {n.slice.value})"
+                raise Untranslatable("array index that is not a static non-negative integer")
             if k == V:
                 ik, ic = self.e(n.slice)
                 if ik == "num":
@@ -269,8 +283,30 @@ class AstTr:
         if fn in PRIMS:
             if len(n.args) != 1 or n.keywords:
                 raise Untranslatable(f"primitive {fn} with extra arguments")
+            if self.vec_mode:
+                k0, c0 = self.e(n.args[0])
+                if k0 in (VE, V):  # elementwise on a 1-d array
+                    return VE, f"(Vec.mapE (fun e_ => Expr.prim Prim.{PRIMS[fn]} e_) {self.as_ve((k0, c0))})"
             k, c = self.sc(n.args[0])
             return S, f"(Expr.prim Prim.{PRIMS[fn]} {c})"
+        if fn == "jnp.cumsum" and self.vec_mode and len(n.args) == 1 and not n.keywords:
+            return VE, f"(Vec.cumsum {self.ve(n.args[0])})"
+        if fn == "jnp.pad" and self.vec_mode and len(n.args) == 1:
+            kw = {k.arg: k.value for k in n.keywords}
+            if set(kw) != {"pad_width", "constant_values"} or not (isinstance(kw["pad_width"], ast.Constant) and kw["pad_width"].value == 1):
+                raise Untranslatable("jnp.pad other than pad_width=1 with constant_values")
+            ck, cc = self.e(kw["constant_values"])
+            if ck != "TUPA" or len(cc) != 2:
+                raise Untranslatable("jnp.pad constant_values must be a pair")
+            return VE, f"(Vec.pad1 {self.ve(n.args[0])} {cc[0]} {cc[1]})"
+        if (isinstance(n.func, ast.Attribute) and n.func.attr == "set" and isinstance(n.func.value, ast.Subscript)
+                and isinstance(n.func.value.value, ast.Attribute) and n.func.value.value.attr == "at" and self.vec_mode
+                and len(n.args) == 1 and not n.keywords):
+            # `a.at[i].set(v)` with a static index
+            idx = n.func.value.slice
+            if not (isinstance(idx, ast.Constant) and isinstance(idx.value, int) and not isinstance(idx.value, bool) and idx.value >= 0):
+                raise Untranslatable(".at[i].set with a non-static index")
+            return VE, f"(Vec.setAt {self.ve(n.func.value.value.value)} {idx.value} {self.sc(n.args[0])[1]})"
         if fn in LAX_BIN and len(n.args) == 2 and not n.keywords:
             return self.binop(LAX_BIN[fn], self.e(n.args[0]), self.e(n.args[1]))
         if fn == "lax.neg" and len(n.args) == 1:
@@ -422,8 +458,8 @@ class AstTr:
             ln = f"{name}_{len(self.lets)}"
             self.lets.append(("L", ln, code))
             self.env[name] = (VE, ln)
-        elif kind == "TUP":
-            self.env[name] = ("TUP", code)
+        elif kind in ("TUP", "TUPA"):
+            self.env[name] = (kind, code)
         else:
             raise Untranslatable("bind kind " + str(kind))
 
@@ -471,6 +507,21 @@ class AstTr:
                         ret.append(VecCode(self.as_ve((k, c))))
                     else:
                         ret.append(self.sc(v)[1])
+                continue
+            if isinstance(st, ast.If) and isinstance(st.test, ast.Name) and self.env.get(st.test.id, (None,))[0] == "STATIC":
+                # `if pad_with_ends:` on a parameter left at its (boolean) default
+                r = self.stmts(st.body if self.env[st.test.id][1] else st.orelse)
+                if r is not None:
+                    ret = r
+                continue
+            if (isinstance(st, ast.If) and not st.orelse and len(st.body) == 1 and isinstance(st.body[0], ast.Raise)
+                    and self.guard_args is not None):
+                # `if <test on arguments>: raise …`: an argument check of a constructor-time (untraced) value; recorded as a
+                # precondition of the generated definition (its negation is a hypothesis of the theorems)
+                names = {x.id for x in ast.walk(st.test) if isinstance(x, ast.Name)}
+                if not names or not names <= set(self.guard_args):
+                    raise Untranslatable("raise-guard on something that is not a declared static argument")
+                self.guards.append(ast.unparse(st.test))
                 continue
             if isinstance(st, ast.If) and self.config:
                 # `if self.<field> == "<value>":` on a static string field fixed by the specialisation
@@ -567,6 +618,10 @@ def generate_ast(repo, specs, header=None, id_base=0) -> dict:
             vec_args = list(sp.get("vec_args", ()))
             for a in vec_args:
                 tr.env[a] = (VE, a)
+            tuple_args = dict(sp.get("tuple_args", {}))
+            for a, ln in tuple_args.items():
+                tr.env[a] = ("TUPA", [f"{a}_{i}" for i in range(ln)])
+            tr.guard_args = sp.get("guard_args")
             if "args" in sp:
                 argnames = list(sp["args"])
                 for a in argnames:
@@ -596,11 +651,18 @@ def generate_ast(repo, specs, header=None, id_base=0) -> dict:
                 # parameters left at their defaults by the caller
                 pos = fn.args.posonlyargs + fn.args.args
                 defaults = dict(zip([a.arg for a in pos][len(pos) - len(fn.args.defaults):], fn.args.defaults))
+                for a, dflt in zip(fn.args.kwonlyargs, fn.args.kw_defaults):
+                    if dflt is not None:
+                        defaults[a.arg] = dflt
+                pos = pos + fn.args.kwonlyargs
                 for a in pos:
                     if a.arg == "self" or a.arg in tr.env or a.arg in tr.ignore_args or a.arg == sp.get("arg"):
                         continue
                     if a.arg not in defaults:
                         raise Untranslatable(f"parameter {a.arg} has no default and is not an argument")
+                    if isinstance(defaults[a.arg], ast.Constant) and isinstance(defaults[a.arg].value, bool):
+                        tr.env[a.arg] = ("STATIC", defaults[a.arg].value)  # only usable as an `if` test
+                        continue
                     try:
                         tr.env[a.arg] = ("num", _default_value(defaults[a.arg]))
                     except Untranslatable:
@@ -612,12 +674,14 @@ def generate_ast(repo, specs, header=None, id_base=0) -> dict:
             if ids is not None:
                 idc = f"/- ids of `{sp['name']}`: scalars {ids.scalar}, vectors {ids.vec} -/\n"
             where = sp["file"] if sp.get("root") is None else f"<{sp['root']}>/{sp['file']}"
-            doc = f"/-- generated from `{where}` :: `{sp['path']}`" + (f" (final `return {sp['sub_return']}`)" if sp.get("sub_return") else "") + (f" (the lambda stored in `{sp['sub_lambda']}`)" if sp.get("sub_lambda") else "") + " -/\n"
+            doc = f"/-- generated from `{where}` :: `{sp['path']}`" + (f" (final `return {sp['sub_return']}`)" if sp.get("sub_return") else "") + (f" (the lambda stored in `{sp['sub_lambda']}`)" if sp.get("sub_lambda") else "") + ("; argument checks that raise otherwise: " + ", ".join(f"`not ({g})`" for g in tr.guards) if tr.guards else "") + " -/\n"
             binders = "".join(f"(self_{f} : Expr N) " for f in (sp.get("field_params") or [])) + "".join(f"(self_{f} : List (Expr N)) " for f in tr.vec_field_params) + (sp.get("binders", "") + " " if sp.get("binders") else "")
             if tr.dim:
                 binders = f"({tr.dim} : Nat) " + binders
             if vec_args:
                 binders += "(" + " ".join(vec_args) + " : List (Expr N)) "
+            for a, ln in tuple_args.items():
+                binders += "(" + " ".join(f"{a}_{i}" for i in range(ln)) + " : Expr N) "
             if argnames:
                 binders += "(" + " ".join(argnames) + " : Expr N)"
             ty = lambda r: "List (Expr N)" if isinstance(r, VecCode) else "Expr N"
